@@ -22,10 +22,13 @@ structure Rules where
   /-- true: `_length_fix` ignores a `_sdn_N_` suffix that leaves no room;
       false (pinned): python slice `identifier[: target - k]` with a possibly zero/negative bound. -/
   room : Bool
+  /-- true: `_conflicts_good` compares all written forms (per-wire identifiers of bus cables too);
+      false (before names_8): only the candidate itself against each sibling's name and identifier. -/
+  bitForms : Bool
   deriving Repr, DecidableEq
 
-def Rules.repaired : Rules := ⟨true, true, true, true⟩
-def Rules.pinned : Rules := ⟨false, false, false, false⟩
+def Rules.repaired : Rules := ⟨true, true, true, true, true⟩
+def Rules.pinned : Rules := ⟨false, false, false, false, false⟩
 
 def target (R : Rules) : Nat := if R.len255 then 255 else 256
 
@@ -57,30 +60,38 @@ def charsFix (R : Rules) (s : Str) : Str :=
        | [] => []
        | c :: r => if c.isAlpha then (c :: r).map sub else '&' :: (c :: r).map sub)
 
-def conflictsGood (R : Rules) (cand : Str) (others : List Sib) : Bool :=
-  others.all fun e =>
-    !((if R.foldCase then lower e.name else e.name) == cand) &&
-    (match e.ident with
-     | none => true
-     | some i => !((if R.foldCase then lower i else i) == cand))
+def conflictsGood (R : Rules) (bits : List Nat) (cand : Str) (others : List Sib) : Bool :=
+  if R.bitForms then
+    others.all fun e =>
+      (forms bits cand).all fun m =>
+        !((if R.foldCase then lower e.name else e.name) :: (match e.ident with
+            | none => []
+            | some i => (forms e.bits i).map (fun f => if R.foldCase then lower f else f))).contains m
+  else
+    others.all fun e =>
+      !((if R.foldCase then lower e.name else e.name) == cand) &&
+      (match e.ident with
+       | none => true
+       | some i => !((if R.foldCase then lower i else i) == cand))
 
-def conflictsFix (R : Rules) (others : List Sib) : Nat → Str → Str × Bool
-  | 0, ident => (ident, conflictsGood R (lower ident) others)
+def conflictsFix (R : Rules) (bits : List Nat) (others : List Sib) : Nat → Str → Str × Bool
+  | 0, ident => (ident, conflictsGood R bits (lower ident) others)
   | fuel + 1, ident =>
       let l := lower ident
-      if conflictsGood R l others then (ident, true)
-      else conflictsFix R others fuel (lengthFix R (bump l))
+      if conflictsGood R bits l others then (ident, true)
+      else conflictsFix R bits others fuel (lengthFix R (bump l))
 
-def makeValidF (R : Rules) (name : Str) (others : List Sib) : Str × Bool :=
-  conflictsFix R others (fuelFor others) (charsFix R (lengthFix R name))
+def makeValidF (R : Rules) (bits : List Nat) (name : Str) (others : List Sib) : Str × Bool :=
+  conflictsFix R bits others (fuelFor bits others) (charsFix R (lengthFix R name))
 
-def makeValid (R : Rules) (name : Str) (others : List Sib) : Str := (makeValidF R name others).1
+def makeValid (R : Rules) (bits : List Nat) (name : Str) (others : List Sib) : Str :=
+  (makeValidF R bits name others).1
 
 def assignOne (R : Rules) (x : Sib) (others : List Sib) : Sib :=
   match x.ident with
   | some _ => x
   | none =>
-      let id := makeValid R x.name others
+      let id := makeValid R x.bits x.name others
       { x with ident := some id, rename := x.rename || (id != x.name), assigned := true }
 
 def assignGo (R : Rules) : List Sib → List Sib → List Sib
